@@ -429,7 +429,7 @@ func runMeshBehaviour[F comparable, C comparable, M any](api meshAPI[F, C, M], r
 			ev.Indexed = []bool{api.indexed(r.meshes[1]), api.indexed(r.meshes[2])}
 		})
 		if ev.Panic != "" {
-			empty := meshLight{Num: -1, Ids: []int{}, Iter: []int{}, Cont: []int{}, Min: []int{}, Max: []int{}}
+			empty := meshLight{Num: -1, Ids: []int{}, Iter: []int{}, IterS: []int{}, Cont: []int{}, Min: []int{}, Max: []int{}}
 			ev.Light = []meshLight{empty, empty}
 			ev.Full = []meshFull{}
 			ev.Indexed = []bool{false, false}
